@@ -86,6 +86,8 @@ impl Prog {
             let (stmt, expr) = v.render_site();
             out.push_str("  ");
             out.push_str(&stmt);
+            // a parenthesised expression on the next line would otherwise parse as a call
+            out.push(';');
             if cos & 4 != 0 {
                 out.push_str(&format!(" // site {}", v.id));
             }
